@@ -467,7 +467,7 @@ pub fn run_ops(w: &mut World, ops: &[Op], start: usize, ctx: &mut Ctx) {
                     let mask = |e: &crate::ops::EntryInfo| {
                         let mut e = e.clone();
                         // (the root's len is the mini-stream container size: never judged)
-                        if e.is_root || dirty.iter().any(|d| d.eq_ignore_ascii_case(&e.path) || *d == e.path) {
+                        if e.is_root || dirty.iter().any(|d| crate::model::same_path_ci(d, &e.path)) {
                             e.len = 0;
                         }
                         e
